@@ -107,6 +107,14 @@ def check_text(t, case=None, want_stats=False):
         returned = p8png.get_bytes_from_code(bytes(t))
         area = bytes(returned)
         _scribble(returned)
+    except Exception as e:
+        if type(e).__name__ == 'CodeTooLargeError' and len(t) > 0x3d00 and len(stream) + 8 > 0x3d00:
+            return nblk, nesc, 'refused'       # neither form fits the code area (whether that is refused is C04's clause)
+        raise Violation('get_bytes_from_code raised %r on %s' % (e, show(t)), case, 'area')
+    if len(area) != 0x3d00:
+        raise Violation('get_bytes_from_code returned a code area of %d bytes (0x3d00 expected) for %d characters of code '
+                        'with a %d-byte stream' % (len(area), len(t), len(stream)), case, 'area-size')
+    try:
         area_again = bytes(p8png.get_bytes_from_code(bytes(t))) if (len(t) + t[:1][0:1].__len__() + sum(t[:8])) % 8 == 0 else area
     except Exception as e:
         raise Violation('get_bytes_from_code raised %r on %s' % (e, show(t)), case, 'area')
@@ -375,12 +383,34 @@ def part_fuzz(ctx):
     ctx.fuzz('c05', runs=60000, max_len=400, corpus=corpus)
 
 
+# ---------------------------------------------------------------- (g) streams around the size of the code area; long texts
+
+def part_edge(ctx):
+    """Texts whose stream ends within a few bytes of the code area's capacity (incl. an exact fill ending in a
+    two-byte token), and texts whose length crosses 2^15 (the header's length field is 16 bits wide)."""
+    from checks import c04
+    salt = ctx.derive('edge', ctx.shard).to_bytes(8, 'big')[:3]
+    if ctx.shard % 4 == 0:
+        wanted = ('compressed_limit+1', 'compressed_exact_fill') if ctx.quick else None
+        for label, t in c04.boundary_cases(salt, 'compressed'):
+            if wanted is None or label in wanted:
+                res = check_text(t, {'text': t})
+                record(ctx, t, res, forced=True, labels=['area_edge', 'area_edge_' + label])
+    else:
+        line = b'add(rows,{%d,0,0,0,0,0,0,0})\n' % (salt[0] % 10)
+        sizes = (32767, 32768, 32769) if ctx.quick else (32767, 32768, 40000, 65535, 32769, 50000)
+        n = sizes[(ctx.shard - ctx.shard // 4 - 1) % len(sizes)]
+        t = (line * (n // len(line) + 1))[:n - 1] + b'\n'
+        res = check_text(t, {'text': t})
+        record(ctx, t, res, forced=True, labels=['long_text', 'long_text_%d' % n])
+
+
 def parts(tier):
     if tier == 'quick':
-        return [('short', part_short, 8), ('text', part_text, 2), ('repeats', part_repeats, 2),
-                ('prefixes', part_prefixes, 1), ('streams', part_streams, 1)]
-    return [('short', part_short, 16), ('text', part_text, 6), ('repeats', part_repeats, 8),
-            ('prefixes', part_prefixes, 2), ('streams', part_streams, 3), ('fuzz', part_fuzz, 2)]
+        return [('short', part_short, 6), ('text', part_text, 2), ('repeats', part_repeats, 2),
+                ('prefixes', part_prefixes, 1), ('streams', part_streams, 1), ('edge', part_edge, 4)]
+    return [('short', part_short, 14), ('text', part_text, 6), ('repeats', part_repeats, 8),
+            ('prefixes', part_prefixes, 2), ('streams', part_streams, 3), ('edge', part_edge, 8), ('fuzz', part_fuzz, 2)]
 
 
 def replay(case):
@@ -396,7 +426,7 @@ def vacuity(total, tier):
     if total.classes.get('short', 0) != want_short:
         msgs.append('short strings enumerated %d, expected %d' % (total.classes.get('short', 0), want_short))
     for lab in ('has_block', 'has_escape', 'far_repeat', 'near_repeat', 'text_update60', 'stream',
-                'stream_far_offset', 'stored_compressed'):
+                'stream_far_offset', 'stored_compressed', 'area_edge', 'long_text'):
         if total.classes.get(lab, 0) < 2:
             msgs.append('class %s seen %d times' % (lab, total.classes.get(lab, 0)))
     return msgs
